@@ -84,7 +84,8 @@ class Ext(cpp2coq.Tr):
             return "durms"
         if t.endswith("::ttl_iterator"):
             return "liter"
-        if (t.startswith("std::map<") and t.endswith("::iterator")) or t.startswith("std::_Rb_tree_iterator<") and t.endswith(">"):
+        if (t.startswith("std::map<") and (t.endswith("::iterator") or t.endswith("::const_iterator"))) or \
+                ((t.startswith("std::_Rb_tree_iterator<") or t.startswith("std::_Rb_tree_const_iterator<")) and t.endswith(">")):
             return "mit"
         if t.endswith("::keyed_element &"):
             return "keref"
